@@ -129,6 +129,46 @@ func runSensitivity(r *Report) {
 			fmt.Printf("SENSITIVITY: the checker for %s no longer detects seeded mutant %s (%s)\n", r.Property, m.Name, m.Note)
 		}
 	}
+	// independently written seeded changes (sub-agents) that this property's check is expected to catch
+	seeds, _ := filepath.Glob(filepath.Join(verifDir(), "seeded", "*", "meta.json"))
+	sort.Strings(seeds)
+	for _, mf := range seeds {
+		var meta struct {
+			ID       string `json:"id"`
+			Prop     string `json:"breaks_property"`
+			Detected string `json:"detected_by"`
+		}
+		b, err := os.ReadFile(mf)
+		if err != nil || json.Unmarshal(b, &meta) != nil || strings.HasPrefix(meta.Detected, "NOT DETECTED") {
+			continue
+		}
+		if meta.Prop != r.Property && !strings.Contains(meta.Detected, r.Property+".") && !strings.Contains(meta.Detected, r.Property+"/") {
+			continue
+		}
+		patch := filepath.Join(filepath.Dir(mf), "patch.diff")
+		ap := exec.Command("patch", "-p1", "--no-backup-if-mismatch", "-s", "-i", patch)
+		ap.Dir = scratch
+		if out, err := ap.CombinedOutput(); err != nil {
+			na++
+			results = append(results, mutantResult{"seeded/" + meta.ID, "not-applicable", "patch does not apply: " + strings.TrimSpace(string(out))})
+			exec.Command("cp", "-r", repoRoot+"/util", repoRoot+"/api", scratch).Run()
+			continue
+		}
+		cmd := exec.Command(exe, "check", "-property", r.Property, "-tier", "quick", "-repo", scratch, "-no-evidence")
+		cmd.Env = append(os.Environ(), "VERIF_DIR="+verifDir())
+		out, _ := cmd.CombinedOutput()
+		rv := exec.Command("patch", "-R", "-p1", "--no-backup-if-mismatch", "-s", "-i", patch)
+		rv.Dir = scratch
+		rv.Run()
+		applied++
+		if strings.Contains(string(out), "VIOLATION property="+r.Property) {
+			detected++
+			results = append(results, mutantResult{"seeded/" + meta.ID, "detected", ""})
+		} else {
+			results = append(results, mutantResult{"seeded/" + meta.ID, "MISSED", ""})
+			fmt.Printf("SENSITIVITY: the checker for %s no longer detects seeded change %s\n", r.Property, meta.ID)
+		}
+	}
 	r.Stats["mutants_applied"] = applied
 	r.Stats["mutants_detected"] = detected
 	r.Stats["mutants_not_applicable"] = na
